@@ -35,7 +35,9 @@
         through the cloned handle carries the temporary it was cloned from as a ghost
         annotation) and `for` (`r#for`: `get(index)` per iteration, increment block);
       - string concatenation `l + r` (`desugared_binop`);
-      - f-strings (`f_string`: parts converted and appended one after the other);
+      - f-strings (`f_string`: parts converted and appended one after the other — the conversion of
+        a part, a `CallRuntime` of its type's `to_string` which for a registered host type is a
+        logged host call, is materialised before the next part is lowered);
       - enum constructors `E.V(args…)` (`enum_constructor` + `make_enum`);
       - `match` (`r#match` / `match_case`): guard chains per discriminant with the `_` arms
         woven in, in source order; shared arm blocks.
@@ -68,13 +70,14 @@ inductive Value
   | clone (x : Var)
   | move (x : Var)
   | binop (l : Var) (op : BinOp) (r : Var)
+  | eqHost (l : Var) (ne : Bool) (r : Var)   -- `BinOp Eq/Ne` at a registered host type: stands for a call of the type's equality
   | not (x : Var)
   | neg (x : Var)
   | callRt (f : Nat) (args : List Var)
   | listNew                          -- `CallRuntime` of `List.new` (pure)
   | listGet (l i : Var)              -- `CallRuntime` of `List.get` (pure)
   | idxAdd (a b : Var)               -- `BinOp Add` on the `u64` loop index (no `i32` wrap)
-  | toStr (x : Var)                  -- `CallRuntime` of the type's `to_string` (pure, not a logged host call)
+  | toStr (x : Var)                  -- `CallRuntime` of the type's `to_string` (for a primitive type: pure; for the host type: a logged host call)
   | append (a b : Var)               -- `CallRuntime` of `String.append` (pure)
   | call (f : Nat) (args : List Var) -- `Value::Call`: a script function (run by `EvalV`, not by `evalValue`)
   | disc (x : Var)                   -- `Value::Discriminant`
@@ -147,6 +150,7 @@ def evalValue (σ : Store) : Value → Option (Trace × Val)
   | .clone x => some ([], σ x)
   | .move x => some ([], σ x)
   | .binop l op r => (TraceSpec.binop op (σ l) (σ r)).map (fun v => ([], v))
+  | .eqHost l ne r => TraceSpec.hostEq ne (σ l) (σ r)   -- the type's equality: a logged host call
   | .not x => match σ x with
     | .bool b => some ([], .bool (!b))
     | _ => none
@@ -163,7 +167,7 @@ def evalValue (σ : Store) : Value → Option (Trace × Val)
   | .idxAdd a b => match σ a, σ b with
     | .int x, .int y => some ([], .int (x + y))
     | _, _ => none
-  | .toStr x => (display (σ x)).map (fun s => ([], .str s))
+  | .toStr x => (render (σ x)).map (fun p => (p.1, .str p.2))   -- a host type's `to_string` is a logged host call
   | .append a b => match σ a, σ b with
     | .str s, .str t => some ([], .str (s ++ t))
     | _, _ => none
@@ -360,6 +364,18 @@ def lowerE : Expr → Nat → Option (Code × Value × Nat)
     let xr := atvVar vr c
     let c := atvNext vr c
     pure (cl ++ ml ++ (cr ++ mr), .binop xl op xr, c)
+  | .eqH ne l r, c => do
+    -- `binop`, the `==` / `!=` paths: the same steps as the general path; the lazy `Value::BinOp` at a
+    -- host type stands for the call of the type's equality, made where the value is materialised
+    let (cl, vl, c) ← lowerE l c
+    let ml := atvCode vl c
+    let xl := atvVar vl c
+    let c := atvNext vl c
+    let (cr, vr, c) ← lowerE r c
+    let mr := atvCode vr c
+    let xr := atvVar vr c
+    let c := atvNext vr c
+    pure (cl ++ ml ++ (cr ++ mr), .eqHost xl ne xr, c)
   | .and l r, c => do
     -- `shortcircuit_binop`: the result temporary is allocated first
     let (cl, vl, c') ← lowerE l (c + 1)
